@@ -703,6 +703,107 @@ class Session:
             self.note_error(e)
             return "error:" + type(e).__name__
 
+    def _bad(self, op):
+        """An operation that is expected NOT to run to completion: a refused or raising call, an
+        aborted or abandoned save, a raising user callable.  Nothing is asserted about the call itself
+        (the properties that speak about refusals have their own worlds); what counts is that the
+        ordinary operations that FOLLOW still satisfy the world's oracles."""
+        from .simio import Ctx, HarnessTimeout, SimCancel, SimFile
+
+        kind = op.get("kind", 0) % N_BAD
+        v = op.get("v", 0)
+        p = self.project
+        ms = self.mods()
+        m = ms[op.get("m", 0) % len(ms)]
+        what = BAD_KINDS[kind]
+        injected = False
+        try:
+            if what == "ctl_out_of_range":
+                cands = [(n, c.instance_value_type(m)) for n, c in m.controllers.items() if c.attached(m)]
+                cands = [(n, t) for n, t in cands if type(t) is Range]
+                if not cands:
+                    return "bad:skip"
+                n, t = cands[(v >> 4) % len(cands)]
+                val = t.max + 1 + (v >> 20) % 1000 if (v >> 3) & 1 else t.min - 1 - (v >> 20) % 1000
+                with rv.errors.override_raise_controller_value_errors(True):
+                    setattr(m, n, val)
+            elif what == "ctl_wrong_type":
+                names = [n for n, c in m.controllers.items() if c.attached(m)]
+                if not names:
+                    return "bad:skip"
+                setattr(m, names[(v >> 4) % len(names)], ("no-such-member", object(), [1], 1.5j)[(v >> 12) % 4])
+            elif what == "attach_foreign":
+                f = self._foreign_project()
+                fm = [x for x in f.modules if x is not None]
+                p.attach_module(fm[(v >> 4) % len(fm)])
+            elif what == "connect_foreign":
+                f = self._foreign_project()
+                fm = [x for x in f.modules if x is not None]
+                if (v >> 3) & 1:
+                    p.connect(fm[(v >> 4) % len(fm)], m)
+                else:
+                    p.connect([m, ms[(v >> 9) % len(ms)]], [ms[(v >> 14) % len(ms)], fm[(v >> 4) % len(fm)]])
+            elif what == "callable_raises":
+                ps = self.real_pats()
+                if not ps:
+                    return "bad:skip"
+                pat = ps[(v >> 4) % len(ps)]
+                at = op.get("at", 0)
+                seen = [0]
+
+                class _Boom(Exception):
+                    pass
+
+                from rv.note import Note
+
+                def fn(pattern, line, track):
+                    seen[0] += 1
+                    if seen[0] > at:
+                        raise _Boom("user callable gives up")
+                    return Note(note=NOTECMD.NOTE_OFF, vel=1 + (line + track) % 120)
+
+                injected = True
+                pat.set_via_fn(fn)
+            elif what == "aborted_save":
+                ctx = Ctx([{"kind": ("write_eio", "write_enospc", "write_cancel")[(v >> 4) % 3], "at": op.get("at", 0)}])
+                injected = True
+                out = SimFile(ctx, 0, b"", "arg", "w")
+                ctx.streams.append(out)
+                p.write_to(out)
+            elif what == "abandoned_writer":
+                gen = p.chunks()
+                for _ in range(1 + op.get("at", 0)):
+                    if next(gen, None) is None:
+                        break
+                if (v >> 3) & 1:
+                    gen.close()
+                del gen
+                return "bad:abandoned_writer"
+            elif what == "bad_constructor_kw":
+                cls = SIMPLE_TYPES[(v >> 4) % len(SIMPLE_TYPES)]
+                p.new_module(cls, **{("no_such_controller", "volume", "volume")[(v >> 12) % 3]: ("x" * 3, object(), -10 ** 9)[(v >> 16) % 3]})
+            elif what == "attach_twice_other":
+                # a module of THIS project offered to the foreign project (refused), then used normally here
+                f = self._foreign_project()
+                f.attach_module(m) if type(m).__name__ != "Output" else f.attach_module(p.output)
+            else:
+                raise ValueError(what)
+        except (KeyboardInterrupt, SystemExit, HarnessTimeout):
+            raise
+        except BaseException as e:
+            if not injected and not isinstance(e, SimCancel) and not env.raised_in_rv(e):
+                raise
+            return "bad:%s:%s" % (what, type(e).__name__)
+        return "bad:%s:accepted" % what
+
+    def _foreign_project(self):
+        if self.foreign is None:
+            f = Project()
+            f.new_module(SIMPLE_TYPES[3])
+            f.new_module(SIMPLE_TYPES[9])
+            self.foreign = f
+        return self.foreign
+
     def _apply(self, op):
         k = op["k"]
         p = self.project
@@ -862,6 +963,8 @@ class Session:
             pref = [m for m in ms if type(m).__name__ == "Sampler"] if op.get("smp") else []
             pool = pref or ms
             return apply_neg(pool[op["m"] % len(pool)], op)
+        if k == "bad":
+            return self._bad(op)
         if k == "set":
             ms = self.mods()
             m = ms[op["m"] % len(ms)]
@@ -1005,6 +1108,8 @@ def gen_op(r, weights=None, depth=0):
         return {"k": "twin", "m": r.randrange(100), "t": r.randrange(1000), "s": r.randrange(100), "vs": [r.getrandbits(62) for _ in range(r.randint(1, 4))], "pay": r.random() < 0.8}
     if k == "hubscn":
         return {"k": "hubscn", "hub": r.randrange(100), "fan": r.randrange(20), "t": r.randrange(1000), "n": r.choice([5, 20, 40, 300]), "v": big}
+    if k == "bad":
+        return {"k": "bad", "kind": r.randrange(N_BAD), "m": r.randrange(1000), "v": big, "at": r.choice([0, 1, 2, 3, 5, 8, 13, r.randrange(200)])}
     if k == "set":
         return {"k": "set", "m": r.randrange(1000), "s": r.randrange(100000), "v": big}
     if k == "pset":
@@ -1046,8 +1151,11 @@ def gen_link_op(r, foreign_p=0.0):
     return op
 
 
+BAD_KINDS = ("ctl_out_of_range", "ctl_wrong_type", "attach_foreign", "connect_foreign", "callable_raises", "aborted_save", "abandoned_writer", "bad_constructor_kw", "attach_twice_other")
+N_BAD = len(BAD_KINDS)
 WEIGHTS_V1 = {"mod": 3, "set": 10, "pset": 2, "pat": 1.5, "tset": 1, "cell": 3, "link": 4, "embed": 1.5}  # frozen: layout-1 gen specs
-DEFAULT_WEIGHTS = {"mod": 3, "set": 10, "pset": 2, "pat": 1.5, "tset": 1, "cell": 3, "link": 4, "embed": 1.5, "modkw": 1.2, "clone_mod": 0.8, "udscn": 0.5, "twin": 0.4, "hubscn": 0.15}
+WEIGHTS_V2 = {"mod": 3, "set": 10, "pset": 2, "pat": 1.5, "tset": 1, "cell": 3, "link": 4, "embed": 1.5, "modkw": 1.2, "clone_mod": 0.8, "udscn": 0.5, "twin": 0.4, "hubscn": 0.15}  # frozen: layout-2 gen specs
+DEFAULT_WEIGHTS = dict(WEIGHTS_V2, bad=1.2)
 
 
 def gen_ops(r, n, weights=None, first_mods=3):
@@ -1068,7 +1176,7 @@ def generated_file(spec):
     if spec.get("nest") and spec.get("layout", 1) >= 2:
         ops += [gen_op(r, {"udscn": 1}), gen_op(r, {"udscn": 1}), {"k": "mod", "t": TYPE_NAMES.index("MetaModule")}, gen_op(r, {"udscn": 1}), gen_op(r, {"twin": 1}), gen_op(r, {"twin": 1})]
         ops += [{"k": "mod", "t": TYPE_NAMES.index("MultiCtl")}, gen_op(r, {"twin": 1}), dict(gen_op(r, {"hubscn": 1}), n=r.choice([20, 40]))]
-    ops += gen_ops(r, spec.get("n", 25), WEIGHTS_V1 if spec.get("layout", 1) < 2 else None)
+    ops += gen_ops(r, spec.get("n", 25), WEIGHTS_V1 if spec.get("layout", 1) < 2 else WEIGHTS_V2)
     for op in ops:
         s.apply(op)
     if spec.get("huge"):
